@@ -5,6 +5,7 @@ import (
 	"sort"
 	"strconv"
 	"strings"
+	"sync"
 	"sync/atomic"
 )
 
@@ -29,6 +30,11 @@ type ClusterState struct {
 	// GCount, when set, selects the requests that count towards the crash limit (counter GW); else all do (GSeq)
 	GCount func(name string) bool
 	GW     atomic.Int64
+	// Serialize makes the nodes execute one request at a time cluster-wide (lock Big, taken after the node's own
+	// lock), so that OnRoute may change topology and move keys between nodes atomically and ESeq is a total order
+	Serialize bool
+	Big       sync.Mutex
+	ESeq      atomic.Int64
 	GCrashAfter atomic.Int64
 	GCrashed    atomic.Bool
 }
@@ -330,4 +336,56 @@ func splitAddr(addr string) (string, int) {
 func portOf(addr string) string {
 	i := strings.LastIndex(addr, ":")
 	return addr[i+1:]
+}
+
+// --- migration steps (call from OnRoute with Serialize set: the caller holds Big)
+
+// BeginMigrate marks slot as migrating on its owner and importing on dst.
+func (cs *ClusterState) BeginMigrate(slot, dst int) {
+	if cs.Owner[slot] == dst {
+		return
+	}
+	cs.Migrating[slot] = dst
+	cs.Importing[slot] = cs.Owner[slot]
+}
+
+// MoveKeys moves every key of slot (or only those in keys, when given) from the owner to the migration destination.
+func (cs *ClusterState) MoveKeys(slot int, keys ...string) int {
+	dst, ok := cs.Migrating[slot]
+	if !ok {
+		return 0
+	}
+	src := cs.Nodes[cs.Owner[slot]]
+	d, t := src.db(0), cs.Nodes[dst].db(0)
+	n := 0
+	for k, v := range d {
+		if HashSlot([]byte(k)) != slot {
+			continue
+		}
+		if len(keys) > 0 {
+			found := false
+			for _, x := range keys {
+				found = found || x == k
+			}
+			if !found {
+				continue
+			}
+		}
+		t[k] = v
+		delete(d, k)
+		n++
+	}
+	return n
+}
+
+// FinishMigrate hands the slot over (remaining keys are moved first).
+func (cs *ClusterState) FinishMigrate(slot int) {
+	dst, ok := cs.Migrating[slot]
+	if !ok {
+		return
+	}
+	cs.MoveKeys(slot)
+	cs.Owner[slot] = dst
+	delete(cs.Migrating, slot)
+	delete(cs.Importing, slot)
 }
